@@ -129,7 +129,9 @@ func feasibleSuccs(b, pred *ssa.BasicBlock) []*ssa.BasicBlock {
 	}
 	k := condKey{b, pi}
 	res, hit := condCache[k]
-	if !hit {
+	if assumed != nil {
+		res = evalCond(iff.Cond, b, pi, at, 0)
+	} else if !hit {
 		res = evalCond(iff.Cond, b, pi, at, 0)
 		condCache[k] = res
 	}
@@ -163,9 +165,21 @@ func subst(v ssa.Value, b *ssa.BasicBlock, pi int) ssa.Value {
 	return v
 }
 
+// assumed holds truth values assumed for boolean SSA values during
+// ReachableFromEntryAssuming (nil otherwise).
+var assumed map[ssa.Value]bool
+
 func evalCond(v ssa.Value, b *ssa.BasicBlock, pi int, pred *ssa.BasicBlock, depth int) tri {
 	if depth > 4 {
 		return triUnknown
+	}
+	if assumed != nil {
+		if t, ok := assumed[subst(v, b, pi)]; ok {
+			if t {
+				return triTrue
+			}
+			return triFalse
+		}
 	}
 	switch x := v.(type) {
 	case *ssa.UnOp:
@@ -236,6 +250,9 @@ func nilnessAt(v ssa.Value, at *ssa.BasicBlock, depth int, seen map[ssa.Value]bo
 	}
 	seen[v] = true
 	defer delete(seen, v)
+	if lv := blockLocalLoad(v); lv != nil {
+		return nilnessAt(lv, at, depth+1, seen)
+	}
 	switch x := v.(type) {
 	case *ssa.Const:
 		if IsNilConst(x) {
@@ -447,4 +464,154 @@ func (w *walker) pushSuccs(s wstate) {
 	for _, t := range feasibleSuccs(s.b, s.pred) {
 		w.push(s.b, t)
 	}
+}
+
+// ReachableFromEntryAssuming reports whether target can execute on some
+// feasible path from the function entry when the given boolean SSA values are
+// assumed to have the given truth values wherever they (or a phi that takes
+// them on the incoming edge) decide a branch. It is shape-agnostic: the value
+// may be tested directly, negated, or merged from a short-circuit expression.
+func ReachableFromEntryAssuming(target ssa.Instruction, assume map[ssa.Value]bool) bool {
+	fn := target.Parent()
+	if fn == nil || len(fn.Blocks) == 0 {
+		return false
+	}
+	return reachAssuming(fn.Blocks[0], true, target, assume)
+}
+
+// ReachesAssuming reports whether target can execute after instruction from
+// (i.e. on a path on which from was evaluated) under the assumptions.
+func ReachesAssuming(from, target ssa.Instruction, assume map[ssa.Value]bool) bool {
+	if from.Parent() != target.Parent() {
+		return false
+	}
+	if from.Block() == target.Block() && InstrIndex(from) < InstrIndex(target) {
+		return true
+	}
+	return reachAssuming(from.Block(), false, target, assume)
+}
+
+func reachAssuming(start *ssa.BasicBlock, includeStart bool, target ssa.Instruction, assume map[ssa.Value]bool) bool {
+	old := assumed
+	assumed = assume
+	defer func() { assumed = old }()
+	// every block may decide per predecessor under assumptions: use edge states
+	type st struct{ b, pred *ssa.BasicBlock }
+	seen := map[st]bool{}
+	stack := []st{{start, nil}}
+	first := true
+	for len(stack) > 0 {
+		x := stack[len(stack)-1]
+		stack = stack[:len(stack)-1]
+		if x.b == target.Block() && (includeStart || !first) {
+			return true
+		}
+		first = false
+		for _, t := range feasibleSuccsAssuming(x.b, x.pred) {
+			n := st{t, x.b}
+			if !seen[n] {
+				seen[n] = true
+				stack = append(stack, n)
+			}
+		}
+	}
+	return false
+}
+
+// feasibleSuccsAssuming is feasibleSuccs with per-predecessor evaluation for
+// every block (a phi may carry an assumed value).
+func feasibleSuccsAssuming(b, pred *ssa.BasicBlock) []*ssa.BasicBlock {
+	if len(b.Succs) != 2 || len(b.Instrs) == 0 {
+		return b.Succs
+	}
+	iff, ok := b.Instrs[len(b.Instrs)-1].(*ssa.If)
+	if !ok {
+		return b.Succs
+	}
+	pi := predIndex(b, pred)
+	at := b
+	if pi >= 0 {
+		at = pred
+	}
+	switch evalCond(iff.Cond, b, pi, at, 0) {
+	case triTrue:
+		return b.Succs[:1]
+	case triFalse:
+		return b.Succs[1:2]
+	}
+	return b.Succs
+}
+
+// blockLocalLoad resolves a load of a local variable that go/ssa keeps in
+// memory (named results of functions with defers, captured variables) to the
+// value stored by the nearest preceding store in the same block, provided no
+// call lies between (a deferred closure or callee could write it). nil if v is
+// not such a load.
+func blockLocalLoad(v ssa.Value) ssa.Value {
+	ld, ok := v.(*ssa.UnOp)
+	if !ok || ld.Op != token.MUL {
+		return nil
+	}
+	a, ok := ld.X.(*ssa.Alloc)
+	if !ok {
+		return nil
+	}
+	b := ld.Block()
+	idx := InstrIndex(ld)
+	for i := idx - 1; i >= 0; i-- {
+		switch x := b.Instrs[i].(type) {
+		case *ssa.Store:
+			if x.Addr == ssa.Value(a) {
+				return x.Val
+			}
+		case ssa.CallInstruction:
+			return nil
+		}
+	}
+	return nil
+}
+
+var liveCache = map[*ssa.Function][]bool{}
+
+// LiveBlocks reports, per block index, whether the block can be reached from
+// the entry on a feasible path (see feasibleSuccs). Phi edges from dead blocks
+// carry no value.
+func LiveBlocks(fn *ssa.Function) []bool {
+	if l, ok := liveCache[fn]; ok {
+		return l
+	}
+	var l []bool
+	if len(fn.Blocks) > 0 {
+		l = reachBlocks(fn, fn.Blocks[0], nil, nil)
+	}
+	liveCache[fn] = l
+	return l
+}
+
+// LiveEdge reports whether the edge pred -> b can be taken on a feasible path.
+func LiveEdge(pred, b *ssa.BasicBlock) bool {
+	live := LiveBlocks(pred.Parent())
+	if pred.Index >= len(live) || !live[pred.Index] {
+		return false
+	}
+	// pred is live; the edge is dead when pred's branch is decided against b on every way into pred
+	if len(pred.Preds) == 0 {
+		for _, s := range feasibleSuccs(pred, nil) {
+			if s == b {
+				return true
+			}
+		}
+		return false
+	}
+	for _, pp := range pred.Preds {
+		if !live[pp.Index] {
+			continue
+		}
+		for _, s := range feasibleSuccs(pred, pp) {
+			if s == b {
+				return true
+			}
+		}
+	}
+	return false
 }
